@@ -60,7 +60,17 @@ func (m StringifiedMessage) TagType() byte {
 func (m StringifiedMessage) MarshalNBT(w io.Writer) error {
 	d := decodeState{data: []byte(m)}
 	d.scan.reset()
-	return writeValue(NewEncoder(w), &d, false, "")
+	if err := writeValue(NewEncoder(w), &d, false, ""); err != nil {
+		return err
+	}
+	// nothing but blanks may follow the value
+	for d.off < len(d.data) {
+		d.scanNext()
+	}
+	if d.scan.eof() == scanError {
+		return d.error(d.scan.errContext)
+	}
+	return nil
 }
 
 func (m *StringifiedMessage) UnmarshalNBT(tagType byte, r DecoderReader) error {
